@@ -216,6 +216,49 @@ Theorem C17_dht_only_when_unsent : forall st index is_ac m st' slot, 0 <= slot -
 Proof. exact emit_dht_count. Qed.
 Print Assumptions C17_dht_only_when_unsent.
 
+(* (6f) over a whole datastream, for ANY statistics pass: a table slot (0..3 DQT, 4..7 DC DHT, 8..11 AC DHT) is
+   defined at most once plus once per statistics pass, and not by the first use if its sent_table flag was set *)
+Theorem C17_tables_not_reemitted : forall img scans data regen slot ev st tr, 0 <= slot ->
+  assemble img scans data regen ev st = inr tr ->
+  count_defs slot tr <= unsent1 st slot + gathers ev.
+Proof. exact tables_not_reemitted_lemma. Qed.
+Print Assumptions C17_tables_not_reemitted.
+(* ... and a quantisation table at most once per datastream (the modelled statistics pass never touches one) *)
+Theorem C17_dqt_at_most_once : forall img scans data newc slot ev st tr, 0 <= slot < 4 ->
+  assemble img scans data (regen_std img scans newc) ev st = inr tr ->
+  count_defs slot tr <= unsent1 st slot.
+Proof. exact dqt_at_most_once_lemma. Qed.
+Print Assumptions C17_dqt_at_most_once.
+
+(* (6g) abbreviated datastreams (jpeg_write_tables, then any image written from the resulting state, e.g.
+   jpeg_start_compress(write_all_tables = FALSE)): the tables-only stream is FFD8 .. FFD9, and a reader that has
+   read it knows, at every point of use in the image stream, every table and the restart interval with the
+   encoder's content -- the image stream refers only to tables the first stream (or itself) carried *)
+Theorem C17_abbreviated_streams : forall arith st d tr1 st1 img scans data regen ev,
+  inv st d -> write_tables_only arith st = inr (tr1, st1) -> regen_ok regen ->
+  audit img scans data regen ev st1 (fold_left dview_step tr1 d) = true /\
+  (exists body, bytes_of tr1 = [255; 216] ++ body ++ [255; 217]).
+Proof. exact abbreviated_streams_lemma. Qed.
+Print Assumptions C17_abbreviated_streams.
+
+(* (6h) application markers: jpeg_write_marker / jpeg_write_m_header succeed only after jpeg_start_compress /
+   jpeg_write_coefficients and before the first scanline, with at most 65533 data bytes; markers written there
+   keep the datastream FFD8 .. FFD9 and are invisible to the table bookkeeping *)
+Theorem C17_write_marker_state : forall g next code data m,
+  api_write_marker g next code data = inr m ->
+  next = 0 /\ g <> CSTATE_START /\ Z.of_nat (length data) <= 65533 /\ m = [MkApp code data].
+Proof. exact api_write_marker_state. Qed.
+Print Assumptions C17_write_marker_state.
+Theorem C17_app_markers : forall img scans data regen apps n optimize dcr st d, 1 <= n ->
+  regen_ok regen -> inv st d ->
+  exists ev, run_master n optimize dcr = Some ev /\
+    forall tr, assemble_with_apps img scans data regen apps ev st = inr tr ->
+      (exists body, bytes_of tr = [255; 216] ++ body ++ [255; 217]) /\
+      (forall tr0, assemble img scans data regen ev st = inr tr0 ->
+         fold_left dview_step tr d = fold_left dview_step tr0 d).
+Proof. exact app_markers_lemma. Qed.
+Print Assumptions C17_app_markers.
+
 (* the facts generated from the current source that the models consume (fix presence, marker codes, sizes) *)
 Theorem C17_source_facts :
   g_NCOMP_CHECK_IN_VALIDATE = 1 /\ g_REVALIDATE_AFTER_LOSSLESS = 1 /\ g_ZERO_QUANT_REJECTED = 1 /\
